@@ -166,7 +166,7 @@ DISTINCT_MIXED = ["s_a", "i_2", "f_2_5", "b_T", "d_naive", "u_plain", "l_lang", 
 
 
 def quantities(tier):
-    return (3, 11, 12) if tier != "thorough" else (3, 10, 11, 12, 26, 101)
+    return (3, 11, 12, 14) if tier != "thorough" else (3, 10, 11, 12, 14, 26, 101)
 
 
 def quantity_cases(tier, env, prelude, scope, spelling, urikey):
@@ -193,6 +193,10 @@ def quantity_cases(tier, env, prelude, scope, spelling, urikey):
                     ("at", k, v) for v in lst[:n])))
                 out.append((tag + "prov-types-" + lname, prelude + (("el", scope, "entity", nm("r1")),) + tuple(
                     ("at", PROV_ATTR_NAMES[0], v) for v in lst[:n])))
+        if n <= 14:
+            # n namespaces offered under one prefix (names given as QualifiedName objects): ex, ex_1, ... ex_<n-1>
+            out.append((tag + "namespaces-under-one-prefix", prelude + tuple(
+                ("el", scope, "entity", ("N%d" % i, "item", Q("ex"))) for i in range(n))))
         if scope == "D":
             buns = ()
             for i in range(n):
